@@ -20,7 +20,7 @@ REQUIRE = {'streams_roll': 50, 'streams_paint': 50, 'mode_switches': 20, 'rows_c
 
 def cases(ctx):
     rng = ctx.rng('c16')
-    for _ in range(ctx.budget(3000, 200000)):
+    for _ in range(ctx.budget(9000, 300000)):
         modes = rng.choice([['roll'], ['paint'], ['roll', 'paint'], ['paint', 'roll'], ['roll', 'roll'],
                             ['roll', 'pop'], ['paint', 'pop'], ['roll', 'paint', 'pop']])
         yield {'stream': G.gen_stream(rng, modes=modes, rich=rng.random() < 0.4)}
